@@ -73,6 +73,7 @@ def parseObs (s : String) : Option Obs :=
         let result : Option ObsResult :=
           match res.splitOn ":" with
           | ["ret", fid, v] => some (.ret (nat! fid) (v == "1"))
+          | ["ret", fid, v, o] => some (.ret (nat! fid) (v == "1") (o == "1"))
           | ["err", kind] => some (.err kind)
           | _ => none
         let range : Option (Option (Int × Int)) :=
@@ -113,7 +114,7 @@ def showModelResult : Result → String
   | .errQuit => "err:quit"
 
 def showImplResult : ObsResult → String
-  | .ret fid _ => s!"ret:{fid}"
+  | .ret fid _ _ => s!"ret:{fid}"
   | .err k => s!"err:{k}"
 
 /-- insertion sort of db entries by block -/
@@ -163,6 +164,37 @@ def runCase : CaseFn := fun c => Id.run do
       fhs := fhs.take (nat! h) ++ nf
       st := step (hashingOf []) st (.recommit (nat! h) nf)
       recommitted := true
+    | "getreorg" :: fork :: btip :: bftip :: rest =>
+      -- the real stores were reorganised onto another branch right after FetchHeader(hash)
+      if obs.startsWith "HANG" || obs.startsWith "PANIC" then
+        out := out.push s!"ORACLE-FAIL C05 case {c.num} line {ln}: [shape=no-answer ] GetCFilter did not return: {obs}"
+        diverged := true
+        continue
+      let fk := nat! fork
+      let afhs : List Nat := (List.range (nat! bftip + 1)).map (fun k => if k > fk then 300000 + k + 1 else k + 1)
+      let rg : Reorg := { fork := fk, tip := nat! btip, fhs := afhs }
+      match parseCall ("get" :: rest), parseObs obs with
+      | some (call, xs), some o =>
+        let hdrAt : HdrAt := fun b =>
+          if b > altBase then
+            let h := b - altBase
+            if fk < h ∧ h < afhs.length then some (afhs.getD (h - 1) 0, afhs.getD h 0) else none
+          else if b ≤ fk then hdrAtOf afhs b else none
+        let heightOf := fun (b : Nat) => if b > altBase then b - altBase else b
+        let best := min (nat! btip) (afhs.length - 1)
+        for tag in oracleAt hdrAt heightOf best maxR call xs before o do
+          out := out.push s!"ORACLE-FAIL C05 case {c.num} line {ln}: [shape={tag} ] ({tag}) reorg between the by-hash and the by-height lookups of prepareCFiltersQuery; {(op.take 160).toString} => {(obs.take 200).toString}"
+        before := { cache := o.cache, db := o.db }
+        if !diverged then
+          let m := getCFilterReorg (hashingOf xs) st rg call
+          st := m.st
+          fhs := afhs
+          if showModel m != showImpl o then
+            out := out.push s!"DIFF C05 case {c.num} line {ln}: impl=<{(showImpl o).take 300}> model=<{(showModel m).take 300}>"
+            diverged := true
+      | _, _ =>
+        out := out.push s!"DIFF C05 case {c.num} line {ln}: unparsable line <{(line.take 200).toString}>"
+        diverged := true
     | ["restart"] =>
       st := step (hashingOf []) st .restart
       before := { before with cache := [] }
@@ -180,7 +212,7 @@ def runCase : CaseFn := fun c => Id.run do
         let oldD := fun (e : DEntry) => before.db.any (fun b => b.blk == e.blk && b.fid == e.fid)
         let stale := recommitted && o.cache.all (fun e => e.v || oldC e) && o.db.all (fun e => e.v || oldD e) &&
           (match o.result with
-           | .ret fid v => v || before.cache.any (fun b => b.blk == call.target && b.fid == fid) ||
+           | .ret fid v _ => v || before.cache.any (fun b => b.blk == call.target && b.fid == fid) ||
                            before.db.any (fun b => b.blk == call.target && b.fid == fid)
            | .err _ => true)
         for tag in tags do
